@@ -92,7 +92,7 @@ def main(tier):
     res.merge(histrun.run(PROP, b, core.scaled(120 if quick else 2000), {"p_crash": 0.05}, ORACLES, salt="h"))
     # crash sweep of a fixed two-message scenario: SIGKILL before every mutating call of qmail-send / qmail-clean
     prof = {"max_msgs": 2, "p_term_restart": 0.0}
-    for idx in ([7] if quick else [7, 19, 31]):
+    for idx in histrun.pick_scenarios(PROP, b, "sw", prof, 1 if quick else 3):
         calls, h = histrun.reference_calls(PROP, b, idx, "sw", prof)
         res.merge(histrun.run_sweep(PROP, b, idx, "sw", prof, ORACLES, histrun.crash_plans(calls, every=2 if quick else 1)))
     res.merge(core.pmap(second_instance, [(b.dir,)] * (2 if quick else 8)))
